@@ -151,8 +151,12 @@ def rule_cmp(E, R):
                 for f in s["fields"]:
                     if f["name"] == "current_nesting_depth":
                         writers.setdefault(p, []).append("init=%s" % lit_value(f["e"]))
-    want = {INC: ["AssignOp"], "ast::parse::FilterParser::new": ["init=0"], "ast::parse::FilterParser::with_settings": ["init=0"]}
-    R.check(writers == want, rule, "ast::parse::FilterParser.current_nesting_depth",
+    # every place that builds a parser from scratch starts the counter at 0 (constructors may delegate to one another);
+    # the only other writer is the `+= 1` in with_increased_nesting
+    ctors = {k_: v_ for k_, v_ in writers.items() if k_ != INC}
+    ok_w = writers.get(INC) == ["AssignOp"] and bool(ctors) and all(v_ == ["init=0"] for v_ in ctors.values()) and \
+        all(k_.startswith("ast::parse::FilterParser::") and "::tests::" not in k_ for k_ in ctors)
+    R.check(ok_w, rule, "ast::parse::FilterParser.current_nesting_depth",
             "counter written only by the constructors (0) and with_increased_nesting (+1)", str(writers))
 
 
